@@ -10,6 +10,7 @@ CONSTANTS
   Questions <- Q0
   AllowEnd = FALSE
   MaxRequery = 0
+  FixCommitState = TRUE
 INVARIANTS EmitWitness
 VIEW View
 CHECK_DEADLOCK FALSE
